@@ -38,7 +38,11 @@ impl Sim {
             Step::SessAct { r, s, cmds, fail_at } => self.step_sess_act(*r, *s, cmds, *fail_at),
             Step::SessRecv { r, s, from_r, from_s, m, garble } => self.step_sess_recv(*r, *s, *from_r, *from_s, *m, *garble),
             Step::SessClose { r, s } => self.step_sess_close(*r, *s),
-            Step::CacheAdd { r, peer, sel, bogus } => self.step_cache_add(*r, *peer, sel, *bogus),
+            Step::CacheAdd { r, peer, sel, bogus, read_fault } => {
+                self.pending_read_fault = if self.is_file(*r) { *read_fault } else { None };
+                self.step_cache_add(*r, *peer, sel, *bogus);
+                self.pending_read_fault = None;
+            }
             Step::Crash { r, at, choices, after_falloc } => self.step_crash(*r, *at, *choices, *after_falloc),
             Step::QueueDrive { ops } => self.step_queue_drive(ops),
             Step::Restart { r } => self.step_restart(*r),
